@@ -565,3 +565,30 @@ def _write_evidence(pid, prop, tier, seed, subs, results, n_reg, n_viol, known_l
     os.makedirs(os.path.join(ROOT, "evidence"), exist_ok=True)
     with open(os.path.join(ROOT, "evidence", pid + ".json"), "w") as f:
         json.dump(doc, f, indent=1)
+
+
+class Decoy:
+    """A second, independent instance of the class under test that lives during a case and is fed
+    other data in between the main instance's calls.  Instances must not influence each other, so
+    the main instance is still required to agree with its oracle; a leak through class attributes,
+    shared mutable defaults or module globals thereby becomes reproducible inside a single case
+    (and hence in its replay file).  Errors of the decoy itself are ignored; call ``step`` *before*
+    seeding numpy for the main call."""
+
+    def __init__(self, make, feed, every=3):
+        self.feed = feed
+        self.every = every
+        self.n = 0
+        try:
+            self.obj = make()
+        except Exception:
+            self.obj = None
+
+    def step(self, *args):
+        self.n += 1
+        if self.obj is None or self.n % self.every:
+            return
+        try:
+            self.feed(self.obj, *args)
+        except Exception:
+            pass
